@@ -68,7 +68,7 @@ BEGIN {
 	if (mode == "errloop") { for (i = 3; i >= 0; i--) { y = y + 6 / i } }
 	if (mode == "errforin") { arr["a"] = 1; arr["b"] = 0; arr["c"] = 2; for (k in arr) { z = z + 1 / arr[k] } }
 	if (mode == "wopen") { print "w1" > "out1"; print "w2" > "out2"; printf "a" >> "out1"; x = "wopen" }
-	if (mode == "ropen") { r1 = (getline l1 < "f1"); r2 = (getline < "f2"); r4 = (getline) }
+	if (mode == "ropen") { r1 = (getline l1 < "f1"); r2 = (getline < "f2"); r5 = (getline l5 < "-"); r4 = (getline) }
 	if (mode == "sys") { x = system("true") }
 	if (mode == "setmodes") { INPUTMODE = "csv header"; OUTPUTMODE = "tsv" }
 	if (mode == "probe") {
@@ -76,6 +76,7 @@ BEGIN {
 		printf "B rec [%s] NF=%s NR=%s FNR=%s FILENAME=[%s] $1=[%s]\n", $0, NF, NR, FNR, FILENAME, $1
 		printf "B modes [%s] [%s]\n", INPUTMODE, OUTPUTMODE
 		gr = (getline); printf "B getline %s [%s] NF=%s NR=%s FNR=%s FILENAME=[%s]\n", gr, $0, NF, NR, FNR, FILENAME
+		gr = (getline pl < "-"); printf "B dash %s [%s] NR=%s\n", gr, pl, NR
 		if (io) {
 			gr = (getline pl < "f1"); printf "B f1 %s [%s] NR=%s\n", gr, pl, NR
 			print "w" > "out1"; gr = close("out1"); printf "B close %s\n", gr
